@@ -10,6 +10,7 @@ from __future__ import annotations
 
 import ast
 
+from pv.q import text as qtext
 from pv.model import AnalysisError, walk_no_nested, params, UNKNOWN
 from pv.handlers import HandlerTable
 from pv.taint import Taint
@@ -136,7 +137,7 @@ def rule_b(model, rep):
                 blk = getattr(par, fld, None)
                 if isinstance(blk, list) and node in blk:
                     for prev in blk[: blk.index(node)]:
-                        t = ast.unparse(prev)
+                        t = qtext(prev)
                         if t.startswith(f"{p} = to_unicode({p}") or t.startswith(f"{p} = to_unicode_for_identify({p}") or \
                                 t.startswith(f"{p} = to_native_str({p}"):
                             ok = True
@@ -187,8 +188,8 @@ def rule_c(model, rep):
                     t = unit.enclosing(node, ast.Try)
                     ok = False
                     while t is not None:
-                        if any(h.type is not None and "KeyError" in ast.unparse(h.type) and
-                               any(isinstance(x, ast.Raise) and "ValueError" in ast.unparse(x) for x in h.body) for h in t.handlers):
+                        if any(h.type is not None and "KeyError" in qtext(h.type) and
+                               any(isinstance(x, ast.Raise) and "ValueError" in qtext(x) for x in h.body) for h in t.handlers):
                             ok = True
                         t = unit.enclosing(t, ast.Try)
                     # map(next_value) style handled below
@@ -200,27 +201,27 @@ def rule_c(model, rep):
                 t = unit.enclosing(node, ast.Try)
                 ok = False
                 while t is not None:
-                    if any(h.type is not None and "KeyError" in ast.unparse(h.type) and
-                           any(isinstance(x, ast.Raise) and "ValueError" in ast.unparse(x) for x in h.body) for h in t.handlers):
+                    if any(h.type is not None and "KeyError" in qtext(h.type) and
+                           any(isinstance(x, ast.Raise) and "ValueError" in qtext(x) for x in h.body) for h in t.handlers):
                         ok = True
                     t = unit.enclosing(t, ast.Try)
                 if not ok:
                     # the generator is consumed by a callee inside a try in the same function
-                    ok = any(isinstance(t2, ast.Try) and any(h.type is not None and "KeyError" in ast.unparse(h.type) for h in t2.handlers)
+                    ok = any(isinstance(t2, ast.Try) and any(h.type is not None and "KeyError" in qtext(h.type) for h in t2.handlers)
                              for t2 in walk_no_nested(fn))
                 rep.check(ok, R, site(B, q), ast.unparse(node)[:80], "lazy decode-map lookups are consumed under except KeyError -> ValueError",
                           witness="decoding a string with a character outside the alphabet raises KeyError")
     rep.minimum(R, 4)
     # wrong length -> ValueError in decode_bytes
     fn = model.func(B, "Base64Engine.decode_bytes")
-    txt = ast.unparse(fn)
-    ok = "tail == 1" in txt and "ValueError" in txt
+    txt = qtext(fn)
+    ok = txt.loose("tail == 1") and txt.loose("ValueError")
     rep.check(ok, R, site(B, "Base64Engine.decode_bytes"), "tail == 1 -> ValueError", "a length of 1 mod 4 is refused with ValueError",
               witness="truncated encodings decode to garbage instead of being refused")
     for f in ("b64s_decode", "ab64_decode"):
         fn = model.func(B, f)
-        txt = ast.unparse(fn)
-        ok = "except _BinAsciiError" in txt or "except (_BinAsciiError" in txt or "ValueError" in txt
+        txt = qtext(fn)
+        ok = txt.loose("except _BinAsciiError") or txt.loose("except (_BinAsciiError") or txt.loose("ValueError")
         rep.check(ok, R, site(B, f), "binascii error mapped", f"{f} maps decoding errors to a value/type error")
     # GenericHandler.identify: parse-to-identify swallows exactly ValueError
     fn = model.func(UH, "GenericHandler.identify")
@@ -230,8 +231,8 @@ def rule_c(model, rep):
     rep.check(ok, R, site(UH, "GenericHandler.identify"), ast.unparse(tries[0].handlers[0]) if tries else "<none>",
               "identify() by parsing answers False for exactly the documented ValueError family")
     fn = model.func(UH, "to_unicode_for_identify")
-    txt = ast.unparse(fn)
-    rep.check("except UnicodeDecodeError" in txt and "decode('latin-1')" in txt, R, site(UH, "to_unicode_for_identify"), "latin-1 fallback",
+    txt = qtext(fn)
+    rep.check(txt.loose("except UnicodeDecodeError") and txt.loose("decode('latin-1')"), R, site(UH, "to_unicode_for_identify"), "latin-1 fallback",
               "identify() never fails on non-UTF-8 bytes")
 
 
@@ -240,15 +241,15 @@ def rule_d(model, rep):
     R = "C08.d-whole-digest"
     # _norm_checksum: size and charset enforced
     fn = model.func(UH, "GenericHandler._norm_checksum")
-    txt = ast.unparse(fn)
-    ok = "if cc and len(checksum) != cc:" in txt and "ChecksumSizeError" in txt
+    txt = qtext(fn)
+    ok = txt.loose("if cc and len(checksum) != cc:") and txt.loose("ChecksumSizeError")
     rep.check(ok, R, site(UH, "GenericHandler._norm_checksum"), "if cc and len(checksum) != cc: raise ChecksumSizeError",
               "a stored digest of the wrong length is refused when parsed", witness="a truncated digest is accepted and compared")
     ok = "any((c not in cs for c in checksum))" in txt
     rep.check(ok, R, site(UH, "GenericHandler._norm_checksum"), "any(c not in cs for c in checksum)", "digest characters outside the alphabet are refused")
     # constructor runs checksum through _norm_checksum
     fn = model.func(UH, "GenericHandler.__init__")
-    ok = "self.checksum = self._norm_checksum(checksum)" in ast.unparse(fn)
+    ok = "self.checksum = self._norm_checksum(checksum)" in qtext(fn)
     rep.check(ok, R, site(UH, "GenericHandler.__init__"), "self.checksum = self._norm_checksum(checksum)", "every parsed digest is validated")
     # verify compares whole checksum (no slicing) except mssql2000 (documented half compare)
     for un, unit in model.units.items():
@@ -272,11 +273,11 @@ def rule_d(model, rep):
     if fn is None:
         v = u.assigns.get("consteq")
         r = u.imports.get("consteq")
-        ok = (r is not None and r == ("hmac", "compare_digest")) or (v and "compare_digest" in ast.unparse(v[-1]))
+        ok = (r is not None and r == ("hmac", "compare_digest")) or (v and "compare_digest" in qtext(v[-1]))
         rep.check(bool(ok), R, site("passlib.utils", "consteq"), str(r or (ast.unparse(v[-1]) if v else None)), "consteq is hmac.compare_digest")
     else:
-        txt = ast.unparse(fn)
-        rep.check("compare_digest" in txt or ("result |=" in txt or "result |" in txt), R, site("passlib.utils", "consteq"), "constant-time compare",
+        txt = qtext(fn)
+        rep.check(txt.loose("compare_digest") or (txt.loose("result |=") or txt.loose("result |")), R, site("passlib.utils", "consteq"), "constant-time compare",
                   "consteq compares every position")
     rep.minimum(R, 8)
 
